@@ -5,7 +5,7 @@ from typing import cast
 
 from minimalloc import Buffer, Problem  # pyright: ignore[reportMissingTypeStubs]
 from xdsl.context import Context
-from xdsl.dialects import arith, builtin, func, llvm
+from xdsl.dialects import arith, builtin, func, llvm, memref
 from xdsl.dialects.memref import DeallocOp
 from xdsl.ir import Operation, OpResult, Sequence, SSAValue
 from xdsl.parser import IndexType, IntegerAttr, StringAttr
@@ -23,6 +23,19 @@ from xdsl.utils.hints import isa
 from snaxc.accelerators.acc_context import AccContext
 from snaxc.dialects import snax
 from snaxc.util.snax_memory import L1, SnaxMemory
+
+
+# operations whose results alias the memory of their memref operand
+VIEW_LIKE_OPS = (
+    builtin.UnrealizedConversionCastOp,
+    memref.SubviewOp,
+    memref.CastOp,
+    memref.ReinterpretCastOp,
+    memref.MemorySpaceCastOp,
+    memref.ExpandShapeOp,
+    memref.CollapseShapeOp,
+    snax.LayoutCast,
+)
 
 
 def create_memref_struct(
@@ -262,14 +275,15 @@ class MiniMallocate(RewritePattern):
                 buffers.append(buffer)
                 buffer_ops[buffer.id] = op
 
-                # add uses to the use list
-                for use in op.results[0].uses:
-                    use_op = get_top_level_op(use.operation)
-                    uses[use_op].append(buffer)
-                    if isinstance(use.operation, builtin.UnrealizedConversionCastOp):
-                        for cast_use in use.operation.results[0].uses:
-                            cast_use_op = get_top_level_op(cast_use.operation)
-                            uses[cast_use_op].append(buffer)
+                # add uses to the use list, views and casts of the buffer keep it alive as well
+                values_to_follow: list[SSAValue] = [op.results[0]]
+                while values_to_follow:
+                    value = values_to_follow.pop()
+                    for use in value.uses:
+                        use_op = get_top_level_op(use.operation)
+                        uses[use_op].append(buffer)
+                        if isinstance(use.operation, VIEW_LIKE_OPS):
+                            values_to_follow.extend(use.operation.results)
 
             if op in uses:
                 # udpate lifetime of buffer
